@@ -448,6 +448,39 @@ def execute(case, keep_text=False):
                      'Rayleigh components %s, species present with Rayleigh '
                      'data %s' % (have, want), step)
                 raise Stop()
+        if ktab and 'Absorption' in full:
+            # correlated-k: tau = -ln sum_g w_g exp(-sum_j x[j] k_g[j] rho[j]
+            # dl[j]) for one molecule (component), and with k_g summed over
+            # the molecules for the source
+            from taurex.cache.ktablecache import KTableCache
+            ksum = None
+            wq = None
+            for nme, absorp, T_impl, _x in full['Absorption']:
+                kt = KTableCache()[nme]
+                wq = np.asarray(kt.weights, dtype=float)
+                w = np.asarray(chem.get_gas_mix_profile(nme), dtype=float)
+                kk = np.array([np.asarray(kt.opacity(Tp[j], Pp[j], grid),
+                                          dtype=float) * w[j]
+                               for j in range(nl)])      # layer, wn, g
+                ksum = kk if ksum is None else ksum + kk
+                for label, karr, T_got in ((nme, kk, T_impl),):
+                    tg = np.zeros((nl,) + kk.shape[1:])
+                    for layer in range(nl):
+                        for j in range(nl - layer):
+                            tg[layer] += karr[j + layer] * rho[j + layer] * \
+                                dl[layer][j]
+                    T_ref = np.sum(np.exp(-tg) * wq[None, None, :], axis=2)
+                    out.bump('steps', 'R7k_checked')
+                    use = (T_ref > 1e-15) & (T_ref < 1 - 1e-9)
+                    Tg_ = np.asarray(T_got, dtype=float)
+                    if use.any() and np.any(
+                            np.abs(np.log(Tg_[use]) - np.log(T_ref[use])) >
+                            1e-9 * np.abs(np.log(T_ref[use])) + 1e-12):
+                        viol('composition', 'R7:Absorption:ktable',
+                             'Absorption/%s: transmittance differs from the '
+                             'quadrature sum over mixing-ratio weighted '
+                             'k-coefficients' % label, step)
+                        raise Stop()
         for cname in ('Absorption', 'CIA', 'Rayleigh'):
             if cname not in full or (ktab and cname == 'Absorption'):
                 continue
